@@ -8,7 +8,7 @@ K4  the entity chain is relinked by the DDL when an entry is deleted (listing wa
 """
 import re
 
-from .. import program, callgraph, effects, valueflow as vf, rowrules, sql
+from .. import program, callgraph, effects, valueflow as vf, rowrules, sql, schemas
 from ..frontend import AnalysisBroken
 from ..program import children, strip, walk, locstr
 from ..report import Check
@@ -181,6 +181,29 @@ def chain_triggers(prog, chk, rid, table='PlaylistEntity', col='nextentityid', e
                           'listing' % (en, event, table, col))
 
 
+_REFDEFS = {}
+
+
+def _reference_defs(prog):
+    """{(version triple, 'trigger'|'view', lower name): {normalised definition, ...}} from testdata/ref."""
+    from .. import sql as sqlmod
+    key = prog.repo
+    if key in _REFDEFS:
+        return _REFDEFS[key]
+    out = {}
+    try:
+        refs = schemas.load_references(prog.repo)
+    except AnalysisBroken:
+        refs = []
+    for r in refs:
+        for cat in r.catalogs.values():
+            for (kind, nm), st in cat.raw.items():
+                if kind in ('trigger', 'view') and r.version:
+                    out.setdefault((tuple(r.version), kind, nm), set()).add(sqlmod.norm_tokens(st.toks))
+    _REFDEFS[key] = out
+    return out
+
+
 def chain_trigger_siblings(prog, chk, rid, tables=('playlist', 'playlistentity'), views=()):
     """The per-version copies of a chain-maintaining trigger are siblings: all supported 2.x
     creators must issue the same normalised definition for a trigger of the same name (the
@@ -204,10 +227,23 @@ def chain_trigger_siblings(prog, chk, rid, tables=('playlist', 'playlistentity')
                 raw = cats[en]['main'].raw.get(('view', n))
                 if raw is not None:
                     by['view ' + n][en] = sqlmod.norm_tokens(raw.toks)
+    # a copy that differs from its siblings is a legitimate change of that version when a reference
+    # dump of the version (testdata/ref) carries the same definition
+    refs = _reference_defs(prog)
     for n, d in sorted(by.items()):
         cnt = collections.Counter(d.values())
         major, _ = cnt.most_common(1)[0]
-        odd = sorted(en for en, v in d.items() if v != major)
+        odd = []
+        for en, v in sorted(d.items()):
+            if v == major:
+                continue
+            ver = c13._triple(en)[0]
+            kind, nm = ('view', n[5:]) if n.startswith('view ') else ('trigger', n)
+            if v in refs.get((ver, kind, nm.lower()), ()):
+                chk.ok(rid, '%s %s: the %s copy differs from its siblings and equals the reference dump of its '
+                            'version' % (kind, nm, en), en)
+                continue
+            odd.append(en)
         inst = '%s: %d version copies' % (n if n.startswith('view ') else 'trigger ' + n, len(d))
         if not odd:
             chk.ok(rid, inst + ' identical', n)
